@@ -572,6 +572,103 @@ def long_idle_cases(ctx, hook):
     return n
 
 
+class WildClock:
+    """Stands in for `time` inside mido.ports with the library's REAL sleep() in place: wall-clock readings
+    jump (back an hour, forward a day, ...), sleeping is virtual and recorded, a message arrives after a
+    given number of pauses."""
+
+    def __init__(self, real, pattern, arrive_after, on_arrive):
+        self._real, self.pattern, self.arrive_after, self.on_arrive = real, pattern, arrive_after, on_arrive
+        self.requests = []
+        self.reads = 0
+        self.slept = 0.0          # virtual sleeping moves both clocks forward (a pause that is re-armed until a
+        #                           deadline on the MONOTONIC clock is a legitimate implementation and ends at once)
+
+    def _offset(self):
+        self.reads += 1
+        k = self.reads
+        if k > 20000:
+            raise HarnessAbort('the clock was read 20 000 times without the call returning (busy loop without pausing)')
+        return {'steady': 0.0, 'back-an-hour': -3600.0 * (k % 2), 'backwards-forever': -3600.0 * k,
+                'forward-a-day': 86400.0 * (k % 3 == 0), 'epoch-zero': -self._real.time()}[self.pattern]
+
+    def time(self):
+        return self._real.time() + self.slept + self._offset()
+
+    def monotonic(self):
+        return self._real.monotonic() + self.slept
+
+    def perf_counter(self):
+        return self._real.perf_counter() + self.slept
+
+    def sleep(self, d):
+        self.requests.append(d)
+        self.slept += max(d, 0)
+        if len(self.requests) > 400:
+            raise HarnessAbort('still pausing after 400 pauses')
+        if len(self.requests) == self.arrive_after:
+            self.on_arrive()
+
+    def __getattr__(self, name):
+        return getattr(self._real, name)
+
+
+def wild_clock_cases(ctx, real_sleep):
+    """Blocking receives with the library's own sleep(): whatever the wall clock does, one pause asks the
+    operating system for no more than the configured sleep time, and the call returns within two pauses
+    of the arrival."""
+    import time as real_time
+    n = 0
+    saved_sleep, saved_time = mido.ports.sleep, mido.ports.time
+    limit = mido.ports.get_sleep_time()
+    try:
+        for pattern in ('steady', 'back-an-hour', 'backwards-forever', 'forward-a-day', 'epoch-zero'):
+            for kind in ('echo', 'multi', 'device', 'iterate-then-close'):
+                for arrive_after in (1, 3, 10):
+                    case = {'kind': 'wild-clock', 'clock': pattern, 'port': kind, 'arrival_after_pauses': arrive_after}
+                    if kind in ('echo', 'iterate-then-close'):
+                        port = EchoPort('e')
+                        arrive = (lambda: port.send(dev_msg(1))) if kind == 'echo' else port.close
+                    elif kind == 'multi':
+                        member = EchoPort('m')
+                        port = MultiPort(iter([member]))
+                        arrive = lambda: member.send(dev_msg(1))  # noqa: E731
+                    else:
+                        port = RecordingPort('r', log=[])
+                        arrive = lambda: port.dev.append(dev_msg(1))  # noqa: E731
+                    clock = WildClock(real_time, pattern, arrive_after, arrive)
+                    mido.ports.sleep, mido.ports.time = real_sleep, clock
+                    try:
+                        if kind == 'iterate-then-close':
+                            got = list(BaseIterate(port))
+                            ok = got == []
+                        else:
+                            m = port.receive()
+                            ok = tag_of(m) == ('d', 1)
+                        ctx.check('results == lifecycle model', ok, 'wild-clock:result', case, None)
+                        too_long = [d for d in clock.requests if d > limit * 1.000001 or d < 0]
+                        ctx.check('blocking call bounded sleeps', not too_long and len(clock.requests) <= arrive_after + 2,
+                                  'wild-clock:pause-too-long' if too_long else 'wild-clock:too-many-pauses', case,
+                                  lambda: {'pauses': len(clock.requests), 'longest_request_s': max(clock.requests or [0]),
+                                           'configured_sleep_time_s': limit})
+                    except HarnessAbort as exc:
+                        ctx.check('blocking call bounded sleeps', False, 'wild-clock:never-returns', case, str(exc))
+                    except Exception as exc:
+                        ctx.fail('results == lifecycle model', f'wild-clock:{type(exc).__name__}', case, f'{type(exc).__name__}: {exc}')
+                    finally:
+                        mido.ports.sleep, mido.ports.time = saved_sleep, saved_time
+                    port.closed = True
+                    n += 1
+    finally:
+        mido.ports.sleep, mido.ports.time = saved_sleep, saved_time
+    return n
+
+
+def BaseIterate(port):
+    """for msg in port - EchoPort aliases __iter__ to iter_pending, so go through BaseInput's own."""
+    return mido.ports.BaseInput.__iter__(port)
+
+
 def socket_lifecycle_cases(ctx, hook):
     """close() on a SocketPort: idempotent, afterwards send raises ValueError - also when the peer
     has already gone away politely (FIN) or rudely (reset)."""
@@ -1174,6 +1271,11 @@ def run(ctx):
             k = long_idle_cases(ctx, hook)
             ctx.nontrivial(None, k)
             n += k
+        if ctx.shard == 4 % ctx.nshards:
+            k = wild_clock_cases(ctx, orig)
+            ctx.nontrivial(None, k)
+            ctx.extra('wild_clock_cases', k)
+            n += k
         if ctx.shard == 1 % ctx.nshards:
             k = socket_lifecycle_cases(ctx, hook)
             ctx.nontrivial(None, k)
@@ -1222,6 +1324,8 @@ def replay(ctx, case):
             echo_blocking_cases(ctx, hook)
         elif k == 'portserver-close':
             portserver_close_cases(ctx, hook)
+        elif k == 'wild-clock':
+            wild_clock_cases(ctx, orig)
         elif k == 'multi-failing-member':
             multiport_failing_member(ctx, hook)
     finally:
